@@ -378,6 +378,7 @@ func (p *projector) mapEls(e *atree.VerifElements) *MapEls {
 	}
 	for _, el := range e.Elems {
 		me := MapElem{Sz: int(el.Size), K: []Elem{}, V: []Elem{}, Els: []*MapEls{}, X: []*Node{}}
+		runStats.ElemClass["map:"+el.Kind+fmt.Sprintf("@L%d", e.Level)]++
 		switch el.Kind {
 		case "single":
 			me.T = "s"
